@@ -58,7 +58,8 @@ MolStrand(e) == CASE e.stranded = "none" -> AnyStrand
                   [] e.stranded = "false" -> (IF MolRev(e) THEN "-" ELSE "+")
                   [] e.stranded = "true" -> (IF MolRev(e) THEN "+" ELSE "-")
 MolTruth(F, e) == UNION { TrueAnnotBases(F, Pairs(e.reads[i].blocks), MolStrand(e)) : i \in DOMAIN e.reads }
-MolV(b, e) == LET t(F) == MolTruth(F, e)
+MolV(b, e) == IF Len(e.reads) = 0 \/ \E i \in DOMAIN e.reads : e.reads[i].mate \notin {1, 2} THEN "Inv_C16_Mol_malformed" ELSE
+              LET t(F) == MolTruth(F, e)
                   v == Classify(b, e, t, "Inv_C16_MolAnnotate")
               IN IF v # "ok" THEN v
                  ELSE IF SeqSet(e.genes) # t(OnContig(b, e.c)) THEN "Inv_C16_MolGenes" ELSE "ok"
@@ -76,8 +77,11 @@ Verdict(b, cl, e) ==
            [] e.ev \in {"add", "sort"} -> "ok"
            [] OTHER -> "unknown_event"
 
+(* Totality: a raised call carries no answer fields, so nothing but `raised` is read then; answers are  *)
+(* compared as sets of tuples (tuples of another length are simply unequal); no recursive operator.   *)
 Notes(line, b, cl, e) ==
-    IF e.ev \in {"between", "annot", "mol"} /\ ~(cl /\ QueryPre(e)) THEN Note(line, e.tid, "outside_precondition_unsorted_or_empty_range")
+    IF e.raised # "" THEN TRUE
+    ELSE IF e.ev \in {"between", "annot", "mol"} /\ ~(cl /\ QueryPre(e)) THEN Note(line, e.tid, "outside_precondition_unsorted_or_empty_range")
     ELSE IF e.ev = "annot" /\ e.raised = "" /\ e.m = 1
             /\ Res(e) # TrueAnnotBases(OnContig(b, e.c), Pairs(e.blocks), e.st) /\ AnnotV(b, e) = "ok"
          THEN Note(line, e.tid, "annot_method1_includes_base_after_block_end")
